@@ -317,6 +317,33 @@ class InMemoryRepository(BaseRepository):
         self.validate_namespace(namespace)
         return self._repository[namespace]['qualifiers']
 
+    def _save_content(self):
+        """
+        Return an object that represents the current content of the
+        repository (namespaces and the content of their object stores), for
+        use with :meth:`_restore_content`.
+
+        The CIM objects are not copied; the object stores never modify a
+        stored object in place.
+        """
+        # pylint: disable=protected-access
+        return [(ns, [(name, store, store._data.copy())
+                      for name, store in stores.items()])
+                for ns, stores in self._repository.items()]
+
+    def _restore_content(self, content):
+        """
+        Set the content of the repository back to what it was when `content`
+        was returned by :meth:`_save_content`.
+        """
+        # pylint: disable=protected-access
+        self._repository = NocaseDict()
+        for ns, stores in content:
+            self._repository[ns] = {}
+            for name, store, data in stores:
+                store._data = data
+                self._repository[ns][name] = store
+
     def load(self, other):
         """
         Replace the data in this object with the data from the other object.
